@@ -276,7 +276,7 @@ func TestVerifC19InProcess(t *testing.T) {
 		{"on-config-file-500", "config-file-on", "some", 1},
 		{"on-default-neterr", "default-on", "some", 2},
 	}
-	rounds := kit.Scale(2, 5)
+	rounds := kit.Scale(2, 12)
 	root := kit.NewRNG(kit.Mix(kit.Seed(), 0xC19))
 	instanceIDs := map[string]int{}
 	keysSeen := map[string]bool{}
@@ -303,10 +303,10 @@ func TestVerifC19InProcess(t *testing.T) {
 					return
 				}
 				defer os.Unsetenv(c19EnvVar)
+				// one lifetime per case: a restart on the same data directory is
+				// exercised by the binary unit (in-process it only adds the
+				// unrelated logger.Silent race of Raft-log recovery)
 				lifetimes := 1
-				if kit.Thorough() || cs.Route == "config-file-nested" {
-					lifetimes = 2 // a restart on the same data directory must not change the answer
-				}
 				completed := true
 				var listen string
 				for life := 0; life < lifetimes; life++ {
